@@ -128,9 +128,9 @@ def private_kmodel(ctx):
         ctx.log(f"could not copy the model driver: {e}")
 
 
-def run(ctx, prop_module, mode, assumptions):
-    vlib.translate(ctx, TRANSLATE)
-    vlib.prove(ctx, [prop_module])
+def run(ctx, prop_module, mode, assumptions, translate=(), extra_modules=()):
+    vlib.translate(ctx, TRANSLATE + list(translate))
+    vlib.prove(ctx, [prop_module] + list(extra_modules))
     private_kmodel(ctx)
     found = False
     stream = f"syskeys {mode}"
